@@ -231,6 +231,8 @@ func runScript(root, name string, text []byte, cfg config) (res runResult) {
 				return true, nil
 			case "cfalse":
 				return false, nil
+			case "cvar": // differs between the runs of one process
+				return cfg.Coe, nil
 			}
 			return false, errors.New("condition not defined by the harness: " + cond)
 		}
